@@ -74,13 +74,49 @@ def gen_setup_to_role(m, src):
           r"let mut new_role = None; "
           r"if self\.config\(\)\.transport_mode == TransportMode::Rtp \|\| self\.config\(\)\.transport_mode == TransportMode::Srtp "
           r"\{ new_role = Some\((?P<direct>true|false)\); \} else \{ "
-          r"for section in &desc\.media_sections \{ for attr in &section\.attributes \{ "
+          r"let setup_attrs = desc (?P<chain>[^;]+); "
+          r"for attr in setup_attrs \{ "
           r"if attr\.key == \"setup\" && let Some\(val\) = &attr\.value \{ "
           r"let is_client = match val\.as_str\(\) \{ (?P<arms>[^}]*) \}; "
-          r"new_role = Some\(is_client\); break; \} \} "
-          r"if new_role\.is_some\(\) \{ break; \} \} \} "
+          r"new_role = Some\(is_client\); break; \} \} \} "
           r"if let Some\(r\) = new_role \{ let _ = self\.inner\.dtls_role\.send\(Some\(r\)\); \} \}")
     mm = one(rx, b, "set_remote_description: DTLS role derivation block")
+    # where the a=setup value is looked for, in order (first match wins)
+    chain = mm.group("chain").replace(" ", "")
+    levels = []
+    rest = chain
+    pieces = {".media_sections.iter().flat_map(|section|section.attributes.iter())": "Level_media",
+              "desc.media_sections.iter().flat_map(|section|section.attributes.iter())": "Level_media",
+              "desc.session.attributes.iter()": "Level_session", ".session.attributes.iter()": "Level_session"}
+    first = True
+    while rest:
+        if not first:
+            if not rest.startswith(".chain("):
+                raise Untranslatable("setup->role: unexpected attribute iterator " + rest[:60])
+            inner_end = rest.rfind(")") if rest.count(".chain(") == 1 else None
+            # one chained source per .chain(...)
+            depth = 0
+            for k, ch in enumerate(rest[len(".chain"):]):
+                depth += ch == "("
+                depth -= ch == ")"
+                if depth == 0:
+                    inner_end = len(".chain") + k
+                    break
+            piece, rest = rest[len(".chain("):inner_end], rest[inner_end + 1:]
+        else:
+            piece = None
+            for cand in pieces:
+                if rest.startswith(cand):
+                    piece, rest = cand, rest[len(cand):]
+                    break
+            if piece is None:
+                raise Untranslatable("setup->role: unexpected attribute iterator " + rest[:60])
+        if piece not in pieces:
+            raise Untranslatable("setup->role: unexpected attribute source " + piece[:60])
+        levels.append(pieces[piece])
+        first = False
+    if len(set(levels)) != len(levels):
+        raise Untranslatable("setup->role: attribute source listed twice")
     arms = [a.strip() for a in mm.group("arms").split(",") if a.strip()]
     table = {}
     default = None
@@ -110,8 +146,11 @@ def gen_setup_to_role(m, src):
     m.raw("Definition direct_mode_is_client : bool := %s." % mm.group("direct"),
           "set_remote_description: constant role of Rtp/Srtp modes", PC)
     m.raw("(* the role is derived only while dtls_role is None, from the first a=setup attribute found *)\n"
-          "Definition role_set_once : bool := true.\nDefinition first_setup_attribute_wins : bool := true.",
-          "set_remote_description: role guard (current_role.is_none) and first-match loop", PC)
+          "Definition role_set_once : bool := true.\nDefinition first_setup_attribute_wins : bool := true.\n"
+          "(* where a=setup is looked for, in order: all media sections' attributes, then the session's *)\n"
+          "Inductive SetupLevel : Set := Level_media | Level_session.\n"
+          "Definition setup_lookup_order : list SetupLevel := [%s]." % "; ".join(levels),
+          "set_remote_description: role guard (current_role.is_none), first-match loop, lookup order (media / session level)", PC)
 
 
 # ------------------------------------------------------------------ role -> setup (populate_media_capabilities)
@@ -146,18 +185,39 @@ def gen_role_to_setup(m, src):
 def gen_build_flags(m, src):
     _, _, body = find_fn(src, "build_description", "PeerConnectionInner")
     b = norm(body)
-    wb = ("let will_bundle = self.config.sdp_compatibility != crate::config::SdpCompatibilityMode::LegacySip "
-          "&& match sdp_type { SdpType::Offer => ordered_transceivers.len() > 1, SdpType::Answer => remote_offered_bundle, _ => false, };")
-    if b.count(wb) != 1:
-        raise Untranslatable("build_description: will_bundle expression changed")
+    # will_bundle: `[<outer conjuncts> &&] match sdp_type { Offer => <conj>, Answer => <conj>, _ => false }` where every
+    # conjunct is one of three known atoms; both historical shapes (outer LegacySip test / per-arm test) parse
+    atoms = {"self.config.sdp_compatibility != crate::config::SdpCompatibilityMode::LegacySip":
+             "(negb (SdpCompatibilityMode_eqb compat SdpCompatibilityMode_LegacySip))",
+             "ordered_transceivers.len() > 1": "(Z.gtb n_sections 1)",
+             "remote_offered_bundle": "remote_offered_bundle"}
+
+    def conj(text, allowed, what):
+        text = text.strip()
+        if text.startswith("{") and text.endswith("}"):
+            text = text[1:-1].strip()
+        out = []
+        for part in [x.strip() for x in text.split("&&")]:
+            if part not in atoms or part not in allowed:
+                raise Untranslatable("build_description: will_bundle (%s): unexpected conjunct %r" % (what, part))
+            out.append(atoms[part])
+        return out
+    wm = one(r"let will_bundle = (?P<outer>(?:[^;{]+? && )?)match sdp_type \{ SdpType::Offer => (?P<offer>\{[^}]*\}|[^,{}]+),? "
+             r"SdpType::Answer => (?P<answer>\{[^}]*\}|[^,{}]+),? _ => false, \};", b, "build_description: will_bundle")
+    compat_atom = "self.config.sdp_compatibility != crate::config::SdpCompatibilityMode::LegacySip"
+    outer = conj(wm.group("outer").rstrip().rstrip("&").rstrip(), [compat_atom], "outer") if wm.group("outer").strip() else []
+    offer = outer + conj(wm.group("offer"), [compat_atom, "ordered_transceivers.len() > 1"], "offer arm")
+    answer = outer + conj(wm.group("answer"), [compat_atom, "remote_offered_bundle"], "answer arm")
+    if "(Z.gtb n_sections 1)" not in offer or "remote_offered_bundle" not in answer:
+        raise Untranslatable("build_description: will_bundle lost its section-count / remote-offer condition")
     mux = ("let local_offers_rtcp_mux = self.config.rtcp_mux_policy == crate::config::RtcpMuxPolicy::Require "
            "&& self.config.sdp_compatibility != crate::config::SdpCompatibilityMode::LegacySip;")
     if b.count(mux) != 1:
         raise Untranslatable("build_description: local_offers_rtcp_mux expression changed")
     m.raw("Definition offer_will_bundle (compat : SdpCompatibilityMode) (n_sections : Z) : bool :=\n"
-          "  (negb (SdpCompatibilityMode_eqb compat SdpCompatibilityMode_LegacySip)) && (Z.gtb n_sections 1).\n"
+          "  %s.\n"
           "Definition answer_will_bundle (compat : SdpCompatibilityMode) (remote_offered_bundle : bool) : bool :=\n"
-          "  (negb (SdpCompatibilityMode_eqb compat SdpCompatibilityMode_LegacySip)) && remote_offered_bundle.\n"
+          "  %s.\n" % (" && ".join(offer), " && ".join(answer)) +
           "Definition local_offers_rtcp_mux (pol : RtcpMuxPolicy) (compat : SdpCompatibilityMode) : bool :=\n"
           "  (RtcpMuxPolicy_eqb pol RtcpMuxPolicy_Require) && (negb (SdpCompatibilityMode_eqb compat SdpCompatibilityMode_LegacySip)).",
           "build_description: will_bundle / local_offers_rtcp_mux", PC)
